@@ -3,6 +3,15 @@ use crate::error::ZervError;
 use crate::version::zerv::bump::precedence::Precedence;
 
 impl Zerv {
+    /// Add a bump amount; a value that would overflow u64 is an error, not a panic or a wrap-around
+    pub(crate) fn checked_bump(current: u64, increment: u32) -> Result<u64, ZervError> {
+        current.checked_add(increment as u64).ok_or_else(|| {
+            ZervError::InvalidArgument(format!(
+                "Bump overflows the version number: {current} + {increment}"
+            ))
+        })
+    }
+
     pub fn process_major(
         &mut self,
         override_value: Option<u32>,
@@ -15,7 +24,7 @@ impl Zerv {
 
         // 2. Bump + Reset step (atomic operation)
         if let Some(increment) = bump_value {
-            self.vars.major = Some(self.vars.major.unwrap_or(0) + increment as u64);
+            self.vars.major = Some(Self::checked_bump(self.vars.major.unwrap_or(0), increment)?);
             self.reset_lower_precedence_components(&Precedence::Major)?;
         }
 
@@ -34,7 +43,7 @@ impl Zerv {
 
         // 2. Bump + Reset step (atomic operation)
         if let Some(increment) = bump_value {
-            self.vars.minor = Some(self.vars.minor.unwrap_or(0) + increment as u64);
+            self.vars.minor = Some(Self::checked_bump(self.vars.minor.unwrap_or(0), increment)?);
             self.reset_lower_precedence_components(&Precedence::Minor)?;
         }
 
@@ -53,7 +62,7 @@ impl Zerv {
 
         // 2. Bump + Reset step (atomic operation)
         if let Some(increment) = bump_value {
-            self.vars.patch = Some(self.vars.patch.unwrap_or(0) + increment as u64);
+            self.vars.patch = Some(Self::checked_bump(self.vars.patch.unwrap_or(0), increment)?);
             self.reset_lower_precedence_components(&Precedence::Patch)?;
         }
 
